@@ -83,6 +83,9 @@ def run(rep, tier):
     from . import c03
     c03.kernel_bodies(rep, F, rule="R11.7")
     c03.integer_kernel(rep, F, rule="R11.7")
+    # Line∩Line's collinear branch stands on point_in_rect / value_in_between: their tables (shared with C02), also at extreme magnitudes
+    from . import c02_kernels
+    c02_kernels.run(rep, F, tier, only=set(), rule="R11.9")
     proper_point_table(rep, F, tier)
 
 
@@ -353,7 +356,12 @@ def proper_point_table(rep, F, tier="quick"):
     def D(p_):
         return {"x": float(p_[0]), "y": float(p_[1])}
     k = 0
-    for (a, b), (c, d) in itertools.product(segs, repeat=2):
+    # the grid at its own size, and every fourth pair again shrunk by 2^-27 and 2^-40 / blown up by 2^20 (exact scalings): the crossing point
+    # of two short, well-conditioned segments is as well defined as that of two long ones
+    work = [(1.0, pr) for pr in itertools.product(segs, repeat=2)]
+    for sc in (2.0 ** -27, 2.0 ** -40, 2.0 ** 20):
+        work += [(sc, pr) for pr in list(itertools.product(segs, repeat=2))[::4]]
+    for sc, ((a, b), (c, d)) in work:
         o1, o2, o3, o4 = orient(D(a), D(b), D(c)), orient(D(a), D(b), D(d)), orient(D(c), D(d), D(a)), orient(D(c), D(d), D(b))
         if not (o1 * o2 < 0 and o3 * o4 < 0):
             continue
@@ -362,7 +370,8 @@ def proper_point_table(rep, F, tier="quick"):
         den = (x1 - x2) * (y3 - y4) - (y1 - y2) * (x3 - x4)
         px = ((x1 * y2 - y1 * x2) * (x3 - x4) - (x1 - x2) * (x3 * y4 - y3 * x4)) / den
         py = ((x1 * y2 - y1 * x2) * (y3 - y4) - (y1 - y2) * (x3 * y4 - y3 * x4)) / den
-        ev = NumEval(F, {("arg", 1): {"start": D(a), "end": D(b)}, ("arg", 2): {"start": D(c), "end": D(d)}})
+        S = lambda p_: {"x": float(p_[0]) * sc, "y": float(p_[1]) * sc}
+        ev = NumEval(F, {("arg", 1): {"start": S(a), "end": S(b)}, ("arg", 2): {"start": S(c), "end": S(d)}})
         try:
             hit = ev.select_path(paths)
             if len(hit) != 1 or hit[0].kind != "ret":
@@ -371,11 +380,16 @@ def proper_point_table(rep, F, tier="quick"):
             v = ev.ev(hit[0].ret)
             got = (float(v["x"]), float(v["y"]))
         except (NoModel, TypeError, KeyError, ValueError, ZeroDivisionError) as e:
+            if "nearest_endpoint" in str(e):
+                rep.bad("R11.8", "proper-point:fallback", "proper_intersection(%s-%s, %s-%s)%s gives up the solved crossing and falls back to the nearest end point, although the two segments cross properly and are well conditioned" % (
+                    a, b, c, d, "" if sc == 1.0 else " scaled by %g" % sc), where=fn.loc())
+                return
             rep.bad("R11.8", "proper-point:non-abstractable", "cannot be evaluated on %s-%s / %s-%s: %s" % (a, b, c, d, e), where=fn.loc())
             return
         k += 1
-        if abs(got[0] - float(px)) > 1e-9 or abs(got[1] - float(py)) > 1e-9:
-            rep.bad("R11.8", "proper-point:value", "proper_intersection(%s-%s, %s-%s) = (%.9g, %.9g); the segments cross at (%s, %s)" % (a, b, c, d, got[0], got[1], px, py), where=fn.loc())
+        if abs(got[0] - float(px) * sc) > 1e-9 * sc or abs(got[1] - float(py) * sc) > 1e-9 * sc:
+            rep.bad("R11.8", "proper-point:value", "proper_intersection(%s-%s, %s-%s)%s = (%.9g, %.9g); the segments cross at (%s, %s)%s" % (
+                a, b, c, d, "" if sc == 1.0 else " scaled by %g" % sc, got[0], got[1], px, py, "" if sc == 1.0 else " x %g" % sc), where=fn.loc())
             return
     if k < 100:
         rep.bad("R11.8", "proper-point:floor", "only %d properly crossing pairs" % k)
